@@ -18,6 +18,7 @@ import os
 import shutil
 import vlib
 import gen_open_sites
+import c10_opens
 
 LEVEL = "proof"
 MANIFEST = dict(
@@ -125,12 +126,7 @@ def run(ck):
         # the theorem C10_sites_guarded is already broken by these; say which site it is
         ck.unproved("open site %s:%s -> %s" % (r[0], r[1], r[2]), "path argument of unguarded provenance: " + r[4])
     names_correspondence(ck)
-    try:
-        import checks.c10_opens as opens
-    except ImportError:
-        opens = None
-    if opens is not None:
-        opens.run_opens(ck)
+    c10_opens.run_opens(ck)
     ck.cov["rule"] = ("names: (kind, bytes, n / directory listing) generated from VERIF_SEED, distinct by hash of the case line; non-trivial = "
                       "sanitiser accepted the name / lookup found an entry / path has a directory part. loads: (format, sample-name set, "
                       "entry point, module path) — non-trivial = the library issued at least one OS call beyond opening the given file")
@@ -143,5 +139,4 @@ def run(ck):
 
 
 def replay(ck, rp):
-    import checks.c10_opens as opens
-    return opens.replay(ck, rp)
+    return c10_opens.replay(ck, rp)
